@@ -526,7 +526,8 @@ struct timespec* sentTime) {
     if (m_repeat) {
       return setState(bs_skip, RESULT_ERR_CRC);
     }
-    return setState(bs_recvCmdAck, RESULT_ERR_CRC);
+    m_currentAnswering = getAnswer();  // send the NAK when being the addressed participant
+    return setState(m_currentAnswering ? bs_sendCmdAck : bs_recvCmdAck, RESULT_ERR_CRC);
 
   case bs_recvCmdAck:
     if (recvSymbol == ACK) {
